@@ -786,9 +786,6 @@ func (g *gen) nextOp(pre snapJ, only string) op {
 	cur := g.current(pre)
 	for tries := 0; tries < 20; tries++ {
 		kind := hx.Pick(r, "create", "create", "create", "remove", "remove", "dissociate", "realloc", "realloc", "replace", "setnode", "addnode", "removenode")
-		if len(cur) == 0 {
-			kind = "addnode"
-		}
 		if only == "nodeops" {
 			if r.Chance(30) {
 				kind = hx.Pick(r, "addnode", "removenode", "removenode", "setnode")
@@ -798,6 +795,9 @@ func (g *gen) nextOp(pre snapJ, only string) op {
 		}
 		if len(pre.Wls) == 0 && r.Chance(80) {
 			kind = "create"
+		}
+		if len(cur) == 0 {
+			kind = "addnode" // every node was removed
 		}
 		o := op{"op": kind}
 		switch kind {
@@ -959,6 +959,12 @@ func (g *gen) nextOp(pre snapJ, only string) op {
 			}
 			return o
 		}
+	}
+	if len(cur) == 0 {
+		g.extra++
+		sp := ckit.NodeSpec{Name: fmt.Sprintf("x%d", g.extra), Pod: g.pods[0], CPU: 2, Memory: 1024 * mib}
+		g.nodes = append(g.nodes, sp)
+		return op{"op": "addnode", "node": sp.Name, "pod": sp.Pod, "cpu": sp.CPU, "mem": int(sp.Memory)}
 	}
 	return op{"op": "setnode", "node": cur[0].Name, "label": "z"}
 }
